@@ -180,6 +180,10 @@ class Hist:
         self.base = []      # rows before the first scaling since the last overriding one (np.ndarray) or None
         self.token = []     # identifies the affine map that leads from `base` to the current samples (fresh per scaling)
         self.ntok = 0
+        self.shareV = set()  # pairs (a, b), a < b, of live objects whose VALUE arrays share memory (public get_data())
+        self.shareL = set()  # ... whose LABEL arrays share memory
+        self.sharing_reports = 0
+        self.vsplit = []     # per object: the last operation that replaced its value array but kept its label array object
         self.taint = []     # attributes were corrupted by an already reported interference
         self.case = {"init": [], "ops": []}
         self.ok = True
@@ -208,6 +212,7 @@ class Hist:
         self.base.append(base)
         self.taint.append(taint)
         self.token.append(None)
+        self.vsplit.append(None)
 
     def new_set(self, rows, labels):
         self.case["init"].append({"rows": [[frac_str(x) for x in r] for r in rows], "labels": list(labels)})
@@ -222,6 +227,42 @@ class Hist:
 
     def snap(self):
         return [observe(o) for o in self.objs]
+
+    def sharing(self):
+        """which live (non-empty) objects hold overlapping value / label arrays -- np.shares_memory on get_data()"""
+        datas = [o.get_data() for o in self.objs]
+        V, L = set(), set()
+        for a in range(len(datas)):
+            for b in range(a + 1, len(datas)):
+                if datas[a][0].size and datas[b][0].size and np.shares_memory(datas[a][0], datas[b][0]):
+                    V.add((a, b))
+                if datas[a][1].size and datas[b][1].size and len(datas[a][0]) and len(datas[b][0]) and \
+                        np.shares_memory(datas[a][1], datas[b][1]):
+                    L.add((a, b))
+        return V, L
+
+    def compare_sharing(self, after, what):
+        """the model's bookkeeping of array identity against the implementation's actual memory sharing"""
+        V, L = self.sharing()
+        cells = []
+        for k in range(len(self.objs)):
+            m = re.match(r"^v=(\d+) l=(\d+)$", self.drv.ask("cells %d" % k))
+            cells.append((int(m.group(1)), int(m.group(2))) if m else (-1 - k, -1 - k))
+        ne = [k for k in range(len(self.objs)) if len(after[k]["rows"]) > 0]
+        mV = set((a, b) for a in ne for b in ne if a < b and cells[a][0] == cells[b][0])
+        mL = set((a, b) for a in ne for b in ne if a < b and cells[a][1] == cells[b][1])
+        if V != mV or L != mL:
+            # not yet an observable difference: report it, but let the history go on so that the oracle can find an input
+            # on which the unexpected sharing does damage
+            self.ctx.count("disagreement_array_sharing")
+            if self.sharing_reports < 1 and self.ctx.hist.get("disagreement_array_sharing_reported", 0) < 3:
+                self.ctx.count("disagreement_array_sharing_reported")
+                self.ctx.corr_break("C18/" + what + "/array-sharing", self.case_now(),
+                                    {"impl": str({"values": sorted(V), "labels": sorted(L)}), "model": str({"values": sorted(mV), "labels": sorted(mL)})})
+            self.sharing_reports += 1
+        self.shareV, self.shareL = V, L
+        if L - V:
+            self.ctx.count("state_label_array_shared_without_values")
 
     def compare_pool(self, after, what):
         n = self.drv.ask("n")
@@ -244,8 +285,14 @@ class Hist:
             b, a = before[k], after[k]
             if b != a:
                 what = [f for f in b if b[f] != a[f]]
+                if set(what) <= {"rows", "labels"} and pairs(b) == pairs(a) and (min(k, *may_change), max(k, *may_change)) in self.shareV:
+                    # a holder of the very same value AND label arrays sees the same consistent permutation: its pairs,
+                    # attached labels and attributes are what they were -- no clause of the property is concerned
+                    self.ctx.count("note_shared_arrays_permuted_consistently")
+                    continue
                 kind = "scaling_factor" if what == ["fac"] else ("labels" if what == ["labels"] else "+".join(what))
-                self.viol("non-interference", {"op": opname, "what": kind},
+                t0 = min(may_change) if may_change else k
+                self.viol("non-interference", {"op": opname, "what": kind, "split_by": self.vsplit[t0] or self.vsplit[k] or "none"},
                           {"object": k, "fields": what, "before": {f: b[f] for f in what}, "after": {f: a[f] for f in what}})
                 self.taint[k] = True
 
@@ -264,6 +311,7 @@ class Hist:
         name = op["op"]
         self.case["ops"].append(op)
         self.ctx.count("op_" + name)
+        self.arrs_before = [o.get_data() for o in self.objs]  # keeps the old arrays alive: identity can be compared afterwards
         before = self.snap()
         getattr(self, "op_" + name)(op, before)
 
@@ -271,9 +319,17 @@ class Hist:
         after = self.snap()
         if impl_ret != model_ret:
             self.corr(name + "/return", impl_ret, model_ret)
+        for k in may_change:
+            old, new = self.arrs_before[k], self.objs[k].get_data()
+            if not (old[1].size and new[1].size and np.shares_memory(old[1], new[1])):
+                self.vsplit[k] = None
+            elif not (old[0].size and new[0].size and np.shares_memory(old[0], new[0])):
+                self.vsplit[k] = "+".join(sorted(set((self.vsplit[k].split("+") if self.vsplit[k] else []) + [name])))
         self.check_interference(before, after[:len(before)], may_change, name)
         if self.ok:
             self.compare_pool(after, name)
+        if self.ok:
+            self.compare_sharing(after, name)
         self.ctx.count("ret_" + (impl_ret if impl_ret.startswith("err") else "ok"))
         return after
 
@@ -442,6 +498,7 @@ class Hist:
         t = op["t"]
         bt = before[t]
         order, _ = self.boundary_order(t)
+        shareV_before = set(self.shareV)
         try:
             self.objs[t].move_boundaries_to_front()
             ret, exc = "ok", None
@@ -454,10 +511,13 @@ class Hist:
         self.moving_common("move_boundaries_to_front", t, before, after)
         if sorted(order) != order:
             self.ctx.count("note_boundary_set_iterated_out_of_order")
-        if self.base[t] is not None:
-            b = self.base[t]
-            for i, x in enumerate(order):
-                b[[i, x]] = b[[x, i]]
+        # a co-holder of the value array that saw the in-place permutation has its snapshot permuted alike
+        for k in [t] + [k for k in range(len(before)) if (min(k, t), max(k, t)) in shareV_before and k != t
+                        and after[k]["rows"] != before[k]["rows"]]:
+            if self.base[k] is not None:
+                b = self.base[k]
+                for i, x in enumerate(order):
+                    b[[i, x]] = b[[x, i]]
 
     def derived_common(self, name, t, before, parts_idx, after, part_rows_idx, n_indices=-1):
         """parts (new objects) of object t: attributes carried; snapshots inherited"""
@@ -694,6 +754,39 @@ class Hist:
             res, exc = None, e
         self.concat_finish("list_concatenate", ids, before, res, exc, "lc %s" % ivec(ids))
 
+    def op_copy(self, op, before):
+        """objs[t].copy(): a second holder of the same arrays and attribute objects"""
+        t = op["t"]
+        try:
+            res, exc = self.objs[t].copy(), None
+        except Exception as e:  # noqa: BLE001
+            res, exc = None, e
+        n0 = len(self.objs)
+        if exc is None:
+            self.add_obj(res, None if self.base[t] is None else self.base[t].copy(), self.taint[t])
+            self.token[n0] = self.token[t]
+            self.vsplit[n0] = self.vsplit[t]
+        after = self.finish_op("copy", before, set(), ("id %d" % n0) if exc is None else "err " + err_kind(exc), self.drv.ask("cp %d" % t))
+        if exc is not None:
+            self.unexpected("copy", exc, before[t], before[t])
+        elif pairs(after[n0]) != pairs(before[t]) or attrs_of(after[n0]) != attrs_of(before[t]):
+            self.viol("multiset-preserved", {"op": "copy"}, {"source": str(pairs(before[t]))[:300], "copy": str(pairs(after[n0]))[:300]})
+
+    def op_rebuild(self, op, before):
+        """DataSet(objs[t].get_data()): a new, attribute-less set on the arrays of objs[t]"""
+        t = op["t"]
+        try:
+            res, exc = self.DataSet(self.objs[t].get_data()), None
+        except Exception as e:  # noqa: BLE001
+            res, exc = None, e
+        n0 = len(self.objs)
+        if exc is None:
+            self.add_obj(res)
+            self.vsplit[n0] = self.vsplit[t]
+        after = self.finish_op("rebuild", before, set(), ("id %d" % n0) if exc is None else "err " + err_kind(exc), self.drv.ask("mk %d" % t))
+        if exc is None and pairs(after[n0]) != pairs(before[t]):
+            self.viol("multiset-preserved", {"op": "rebuild"}, {"source": str(pairs(before[t]))[:300], "new": str(pairs(after[n0]))[:300]})
+
     def op_same_scaling(self, op, before):
         i, j = op["i"], op["j"]
         try:
@@ -785,7 +878,7 @@ def gen_op(r, h):
              ("move_boundaries_to_front", 8), ("remove_labels", 4), ("same_scaling", 4)]
     if not full:
         table += [("split_labels", 5), ("split_without_labels", 4), ("split_pieces", 8), ("remove_samples", 9),
-                  ("concatenate", 10), ("list_concatenate", 3)]
+                  ("concatenate", 10), ("list_concatenate", 3), ("copy", 5), ("rebuild", 2)]
     name = r.choices([a for a, _ in table], [b for _, b in table])[0]
     t = target()
     ds = h.objs[t]
@@ -830,7 +923,7 @@ def gen_op(r, h):
             h.ctx.count("skipped_float_ambiguous_extreme_tie")
             return {"op": "same_scaling", "i": t, "j": t}
         return {"op": name, "t": t}
-    if name in ("split_labels", "split_without_labels"):
+    if name in ("split_labels", "split_without_labels", "copy", "rebuild"):
         return {"op": name, "t": t}
     if name == "split_pieces":
         return {"op": name, "t": t, "p": str(r.choice(PCTS))}
@@ -902,7 +995,8 @@ def run(ctx):
                 "dyadic values on a coarse grid so that extremes are tied, constant columns, with/without unlabelled samples; every "
                 "set returned by an operation joins the pool); operations: scale_range / scale_factor / shift_value (with and "
                 "without override, scalar and per-dimension arguments, a few invalid ones), revert_scaling, shuffle, "
-                "move_boundaries_to_front, split_labels / split_pieces / split_without_labels, remove_samples (valid, duplicate, "
+                "move_boundaries_to_front, copy() and DataSet(ds.get_data()) (second holders of the same arrays), "
+                "split_labels / split_pieces / split_without_labels, remove_samples (valid, duplicate, "
                 "== length, beyond, negative indices), remove_labels, concatenate, list_concatenate, same_scaling; model and "
                 "implementation compared after every operation on every live object; one case = one history, distinct by "
                 "(initial sets, operation list), non-trivial if it has at least 2 operations")
@@ -933,7 +1027,9 @@ def run(ctx):
         h = run_history(ctx, drv, thorough)
         ctx.count("history_len_%s" % ("1-5" if len(h.case["ops"]) <= 5 else "6-15" if len(h.case["ops"]) <= 15 else "16-25"))
         ctx.case(h.case, nontrivial=len(h.case["ops"]) >= 2, sample=h.case if k < 2 else None)
-        if not h.ok and (len(ctx.violations) + len(ctx.corr_breaks)) >= ctx.max_reports:
+        # a disagreement with the model is not yet a failing input: keep searching until the oracle has found some
+        if not h.ok and (len(ctx.violations) >= ctx.max_reports or (ctx.violations and len(ctx.corr_breaks) >= ctx.max_reports)
+                         or len(ctx.corr_breaks) >= 40):
             break
 
 
